@@ -154,7 +154,7 @@ theorem argFields (g : ArgSpec) :
     simp [renderArg, Xml.findtext, Xml.find, Xml.children, optLeaf, leaf_text]
 
 theorem parseArgs_render (a : ActionSpec) :
-    parseArgs (renderAction a) = a.args.filterMap fun g => completeArg g.name g.direction g.related := by
+    parseArgs (renderAction a) = a.args.filterMap fun g => completeArg g.name g.direction (g.related.map stripWs) := by
   obtain ⟨nm, args⟩ := a
   have hall : (renderAction ⟨nm, args⟩).findall2 .service .argumentList .argument = args.map renderArg := by
     have hn : ∀ x ∈ args.map renderArg, Xml.isNamed .service .argument x = true := by
